@@ -457,7 +457,20 @@ def rule_width(ctx):
     if ok:
         ps = fc.params()
         sl = rets[0].ast.value.slice
-        expr = _expand_chain(c, sl, rets[0]) if isinstance(sl, ast.Name) else sl
+        class _Exp(ast.NodeTransformer):
+            def __init__(self):
+                self.depth = 0
+
+            def visit_Name(self, n):
+                if isinstance(n.ctx, ast.Load) and n.id not in ps and self.depth < 4:
+                    e = _expand_chain(c, n, rets[0])
+                    if e is not None:
+                        self.depth += 1
+                        out = self.visit(ast.parse(unparse(e), mode="eval").body)
+                        self.depth -= 1
+                        return out
+                return n
+        expr = _Exp().visit(ast.parse(unparse(sl), mode="eval").body)
         want = f"(murmur2({ps[1]}) & 2147483647) % len({ps[2]})"
         ok = expr is not None and unparse(expr) == want and unparse(rets[0].ast.value.value) == ps[2]
     ctx.ob(R, fc, fc.node, ok, "keyed partition is not all_partitions[(murmur2(key) & 0x7fffffff) % len(all_partitions)]", text="index-chain")
